@@ -304,7 +304,9 @@ def session (expectTls : Bool) (tlsa : Int) (toks : List Tok) (evs : List Ev) : 
     | .reset => .next toks1 evs1
     | .timeout => .next toks1 evs1                 -- (fix) was: exit without status
     | .invalid => .next toks1 (evs1 ++ [.quit])
-    | .other => .abort evs1
+    | .other =>                                    -- netget() has already closed the connection
+      if Gen.greetSwitchExits = 0 then .next toks1 evs1          -- (fix) was: give up without trying the other MX
+      else .abort evs1
     | .code c more =>
       match greetLines (toks1.length + 1) c false more toks1 evs1 with
       | (none, _, evs2) => .desync (evs2 ++ [.desync 0])
